@@ -41,11 +41,10 @@ func (b *Buffer) Put(key, value []byte) {
 
 	// The operation stays in the buffer until commit, so it must not alias the
 	// caller's slices: the caller may reuse them right after the call
+	// A nil value is an empty value, not a deletion marker (Get tells the two apart
+	// by nil-ness)
 	keyCopy := append([]byte(nil), key...)
-	var valueCopy []byte
-	if value != nil {
-		valueCopy = append([]byte{}, value...)
-	}
+	valueCopy := append([]byte{}, value...)
 
 	b.operations[string(key)] = &Operation{
 		Key:      keyCopy,
